@@ -44,8 +44,15 @@ def impl_mode(lx):
 
 
 def count_pos(buf, i, line, col):
+    """Position after buf[:i]: a line ends at LF, at CRLF (once) and at a
+    bare CR (the lexer itself makes a bare CR a line-end token)."""
+    n = len(buf)
     for k in range(i):
-        if buf[k] == 10:
+        if k + 1 < n:
+            brk = Or(buf[k] == 10, And(buf[k] == 13, buf[k + 1] != 10))
+        else:
+            brk = Or(buf[k] == 10, buf[k] == 13)
+        if brk:
             line = line + 1
             col = 0
         else:
